@@ -139,6 +139,39 @@ def check(ctx, rep):
     rep.assume("CPython pickle framing: a proper prefix of a pickle never loads successfully (STOP is the last opcode)")
     rep.rule("R11b", "a dbm/shelve index is read completely under the guard and the store itself is not kept (look-ups in a damaged store fail lazily)", floor=1)
     rep.rule("R11c", "a dbm/shelve index is checked for completeness: the writer stores an entry count last, the loader compares it under the guard", floor=1)
+    # ---- R11d: what the savers write
+    rep.rule("R11d", "a cache is written in place under its own name (which listings ignore): the writer creates no other file in the served tree", floor=1)
+    savers = []
+    for H in ctx.handler_classes():
+        for nm in ("savecache", "save_cache"):
+            m = prog.resolve_method(H, nm)
+            if m is not None and m not in [x for x, _ in savers]:
+                savers.append((m, H))
+    vfsz = ctx.cls("handlers.ZIP.VFSZip")
+    if vfsz is not None and prog.resolve_method(vfsz, "save_cache") is not None and prog.resolve_method(vfsz, "save_cache") not in [x for x, _ in savers]:
+        savers.append((prog.resolve_method(vfsz, "save_cache"), vfsz))
+    for m, H in savers:
+        closure, work = [], [(m, H)]
+        while work:
+            g, C = work.pop()
+            if g in closure or len(closure) > 12:
+                continue
+            closure.append(g)
+            for call, t in eff.calls_of(g, C):
+                if t.kind == "repo" and not t.by_name:
+                    work.extend((f2, t.bound_cls if t.bound_cls is not None else f2.cls) for f2 in t.funcs if f2 is not None and f2.module.name.startswith("pygopherd"))
+        bad = []
+        for g in closure:
+            for n in ast.walk(g.node):
+                if isinstance(n, ast.Call):
+                    d = dotted(n.func) or ""
+                    if d.startswith("tempfile.") or d in ("os.replace", "os.rename", "os.link", "shutil.move", "shutil.copy", "shutil.copyfile", "os.mkstemp") \
+                            or d.split(".")[-1] in ("mkstemp", "NamedTemporaryFile", "mkdtemp"):
+                        bad.append(f"{g.qualname}: {norm(n)[:50]}")
+        rep.add("R11d", f"{m.qualname}: writes only the cache file itself", not bad, ctx.where(m),
+                f"the cache is written through another file ({bad[0]}): a writer that is interrupted leaves a file under a name no listing ignores - "
+                "the directory then shows (and caches) an entry that is a cut-off cache" if bad else "", key=f"R11d|{m.qualname}")
+
     sites = deser_sites(ctx, eff)
     done_c = set()
     for s, H in sites:
